@@ -45,6 +45,26 @@ def rule_idx_pos(ctx, cfg, F):
                     if strip_generics(t_.get("callee") or "") == "serde::Serialize::serialize":
                         ret |= {r for r in tr.roots_of_operand(t_["args"][0]) if not (r.kind == "const" and r.id == USIZE_MAX)}
             lens = [r for r in ret if r.kind == "call" and r.id == "std::vec::Vec::len"]
+            if len(ret) == 1 and not lens:
+                # the other spelling: push first, then `table.len() - 1` is the position of what was just pushed
+                ex_ = Expr(f)
+                ops_ = [{"k": "cp", "pl": {"l": 0}}] if f.kind == "Closure" else [t_["args"][0] for b_, t_ in f.calls() if strip_generics(t_.get("callee") or "") == "serde::Serialize::serialize"]
+                after = [b_ for b_, t_ in f.calls() if strip_generics(callee_name(t_)) == "std::vec::Vec::len" and {r.key() for r in tr.roots_of_operand(t_["args"][0])} == table
+                         and f.dominates(pb, b_) and b_ != pb]
+                def len_minus_one(e):
+                    if e[0] == "field" and e[1][0] == "bin" and e[1][1] == "SubWithOverflow":
+                        e = ("bin", "Sub", e[1][2], e[1][3])
+                    return e[0] == "bin" and e[1] in ("Sub", "SubUnchecked") and e[2][0] == "call" and e[2][1] == "std::vec::Vec::len" and e[3] == ("const", 1)
+                es_ = [expr_strip_blocks(ex_.of_operand(o)) for o in ops_]
+                es_ = [e for e in es_ if e != ("const", USIZE_MAX)]
+                other_muts = [b for b, t in f.calls() if strip_generics(callee_name(t)) in ("std::vec::Vec::push", "std::vec::Vec::insert", "std::vec::Vec::remove", "std::vec::Vec::pop", "std::vec::Vec::clear", "std::vec::Vec::truncate", "std::vec::Vec::swap_remove") and b != pb]
+                if len(after) == 1 and es_ and all(len_minus_one(e) for e in es_) and not other_muts:
+                    R.ok("%s: index = len(table) - 1 read after the single push" % f.path, f.loc(pb), cfg)
+                    if f.kind != "Closure":
+                        for b_, t_ in f.calls():
+                            if strip_generics(t_.get("callee") or "") == "serde::Serialize::serialize":
+                                ser_types.add(_ser_int_type(t_))
+                    continue
             if len(ret) != 1 or not lens:
                 R.violate("%s:index-not-len" % key, "the index handed to the serializer is not the table's length (%s)" % sorted(map(repr, ret)), f.path, f.loc(pb), config=cfg)
                 continue
@@ -311,7 +331,44 @@ def rule_split_order(ctx, cfg, F):
         trf0 = Tracer(f)
         bad = [b for b in bad if any(any(r.kind == "param" and r.id in (3, 4) for r in trf0.roots_of_operand(a)) or "OsIpcChannel" in " ".join(f.term(b).get("generics", [])) or "OsIpcSharedMemory" in " ".join(f.term(b).get("generics", []))
                                      for a in f.term(b)["args"])]
-        iters = [b for b, t in f.calls() if strip_generics(callee_name(t)) == "core::slice::iter"]
+        iters = [b for b, t in f.calls() if strip_generics(callee_name(t)) == "core::slice::iter" or
+                 ((strip_generics(t.get("callee") or "") == "std::iter::IntoIterator::into_iter" or strip_generics(callee_name(t)).endswith("IntoIterator>::into_iter")) and t["args"] and
+                  any(r.kind == "param" and r.id in (3, 4) for r in trf0.roots_of_operand(t["args"][0])) and f.local_ty(op_local(t["args"][0]) or 0).startswith("&"))]
+        if len(iters) < 2:
+            # no slice iterators: the lists are walked some other forward way (an index loop over 0..len, `extend` of a mapped iterator): the sites are then
+            # the places where elements of the two attachment parameters are read -- by index with the loop variable of a forward range, or handed to extend
+            def from_param(op, depth=0):
+                out = set()
+                for r in trf0.roots_of_operand(op):
+                    if r.kind == "param" and r.id in (3, 4):
+                        out.add(r.id)
+                    elif r.kind == "call" and r.block is not None and depth < 4:
+                        for a in f.term(r.block)["args"]:
+                            out |= from_param(a, depth + 1)
+                return out
+            reads = []
+            for b, t in f.calls():
+                nm = strip_generics(callee_name(t))
+                if (nm.endswith("::index") or nm.endswith("::extend") or nm.endswith("::collect")) and t["args"]:
+                    srcs = set()
+                    for a in t["args"]:
+                        srcs |= from_param(a)
+                    if srcs:
+                        fwd = True
+                        if nm.endswith("::index") and len(t["args"]) > 1:
+                            ir = trf0.roots_of_operand(t["args"][1])
+                            fwd = bool(ir) and all(r.kind == "agg" and "Range" in str(r.id) for r in ir)
+                        reads.append((b, min(srcs), fwd))
+            if len(reads) >= 2 and not bad:
+                n += len(reads)
+                reads.sort(key=lambda x: len(f.dominators().get(x[0], ())))
+                if not all(x[2] for x in reads):
+                    R.violate("%s:collection-index" % f.path, "an attachment list is not read at the plain forward loop index", f.path, f.loc(reads[0][0]), config=cfg)
+                elif reads[0][1] == 3:
+                    R.ok("sender collects channel descriptors first, then regions (index / extend form)", f.loc(reads[0][0]), cfg)
+                else:
+                    R.violate("%s:collection-order" % f.path, "the sender does not collect channels before regions", f.path, f.loc(reads[0][0]), config=cfg)
+                iters = []
         n += len(iters)
         if bad:
             R.violate("%s:collection-reorders" % f.path, "the descriptor collection loops reorder the list", f.path, f.loc(bad[0]), config=cfg)
@@ -531,7 +588,7 @@ def _iov0_type(f, R, cfg, side):
     if not arr:
         R.violate("%s:no-iovec-array" % f.path, "no iovec array in %s" % f.path, f.path, config=cfg)
         return None
-    first = op_local(arr["rv"]["a"][0])
+    first = _copy_root(f, arr["rv"]["a"][0])          # the entry may have been given a name first (`let header = iovec { .. }; [header, data]`)
     st0 = next((st for b, si, st in iov if st["lhs"]["l"] == first), None)
     if st0 is None:
         R.violate("%s:iovec0-unresolved" % f.path, "cannot resolve iovec[0] of %s" % f.path, f.path, config=cfg)
@@ -640,7 +697,7 @@ def rule_frag_contig(ctx, cfg, F):
                         for tgt in f.succ(s):
                             if tgt == b or f.dominates(tgt, b):
                                 for lab in edge_label(f, s, tgt):
-                                    if lab["kind"] == "cmp" and lab["op"] == "Eq" and lab["truth"] and op_const(lab["b"]) == 0 and _is_var(f, lab["a"], P):
+                                    if lab["kind"] == "cmp" and ((lab["op"] == "Eq" and lab["truth"]) or (lab["op"] == "Ne" and not lab["truth"])) and op_const(lab["b"]) == 0 and _is_var(f, lab["a"], P):
                                         guard = True
                 if guard:
                     R.ok("in-loop first fragment is guarded by P == 0", f.loc(b), cfg)
@@ -1124,6 +1181,13 @@ def rule_shm_sentinel(ctx, cfg, F):
                 c = op_const(lab["b"]) if op_const(lab["b"]) is not None else op_const(lab["a"])
                 if c is not None:
                     yield ("idx", c, lab["truth"] if lab["op"] == "Eq" else not lab["truth"])
+            elif lab["kind"] == "val" and isinstance(lab.get("value"), int):
+                # `match index { usize::MAX => .., _ => .. }`
+                yield ("idx", lab["value"] & USIZE_MAX if lab["value"] < 0 else lab["value"], True)
+            elif lab["kind"] == "val_not":
+                for v in lab.get("not", []):
+                    if isinstance(v, int):
+                        yield ("idx", v & USIZE_MAX if v < 0 else v, False)
 
     def block_fact2(b):
         t = de.term(b)
@@ -1413,6 +1477,8 @@ def fill_cover(f, L, norm=None):
     segs = []
     for b, t in f.calls():
         nm = strip_generics(callee_name(t))
+        if nm in ("std::ptr::mut_ptr::copy_from_nonoverlapping", "std::ptr::mut_ptr::copy_from", "std::ptr::mut_ptr::write_bytes"):
+            nm = "std::ptr::write_bytes"       # method forms on the destination pointer: (dst, src|byte, count), destination first like write_bytes
         if nm in ("std::slice::from_raw_parts_mut", "std::ptr::write_bytes", "std::ptr::copy_nonoverlapping"):
             pa = t["args"][1] if nm == "std::ptr::copy_nonoverlapping" else t["args"][0]
             po = _ptr_offset(f, pa, ex)
@@ -1920,14 +1986,21 @@ def rule_size_agree(ctx, cfg, F):
             e = expr_strip_blocks(ex.of_operand(t["args"][1]))
             s_fn = _find_call(e, lambda n: n.startswith("platform::") and n.endswith("fragment_size"))
             if s_fn is None:
-                # the end of the slice is a loop variable: look at its definitions in the follow-up branch
-                for v in _vars(e):
+                # the end of the slice is a loop variable: look at its definitions in the follow-up branch (through the temporary of an `if` expression that clamps it)
+                seen_v, work_v = set(), list(_vars(e))
+                while work_v and len(seen_v) < 12 and s_fn is None:
+                    v = work_v.pop()
+                    if v in seen_v:
+                        continue
+                    seen_v.add(v)
                     for (db, si, node) in f.defs().get(v, []):
                         if si is not None and _in_loop(f, db):
                             ee = expr_strip_blocks(ex.of_rvalue(node["rv"], 0, db))
                             c = _find_call(ee, lambda n: n.startswith("platform::") and n.endswith("::fragment_size"))
                             if c:
                                 s_fn = c
+                            else:
+                                work_v += list(_vars(ee))
     for b, t in g.calls_to("libc::recv"):
         e = expr_strip_blocks(exg.of_operand(t["args"][2]))
         r_fn = _find_call(e, lambda n: n.startswith("platform::") and n.endswith("::fragment_size"))
